@@ -78,7 +78,7 @@ def explore(ctx):
             if pk == "comm":
                 stmts.append({"k": "comm", "id": "c0", "ref": "s0", "claim": 1, "gens": "hash"})
             elif pk == "venc":
-                stmts.append({"k": "venc", "id": "v0", "ref": "s0", "claim": 1, "dec": False, "gen": "std"})
+                stmts.append({"k": "venc", "id": "v0", "ref": "s0", "claim": 1, "dec": suite == "ps", "gen": "std"})
             else:
                 stmts.append({"k": "rev", "id": "r0", "ref": "s0", "claim": 0})
             cs.append({"op": "f_create", "suite": suite, "seed": rng.randrange(1 << 30), "nonce": "0a0b", "creds": creds, "stmts": stmts, "action": {"k": "ctx"}})
